@@ -19,6 +19,40 @@ def _registries(ctx):
     return sorted(out)
 
 
+def _entry_is_checked_insert(ctx, cb, ebi, et):
+    """`match map.entry(k) { Occupied(_) => panic!(..), Vacant(slot) => { slot.insert(v); } }`: an insertion that replaces
+    nothing — the occupied side never returns.  Returns the VacantEntry::insert call (bi, term) or None."""
+    sy = ctx.sym(cb)
+    cfg = ctx.cfg(cb)
+    E = S.strip_sites(S.strip_refs(sy.call_expr(et, ebi)))
+
+    def uses_entry(x):
+        return any(S.strip_sites(S.strip_refs(y)) == E for y in S.walk(x) if isinstance(y, tuple) and y and y[0] == "call")
+    vac = None
+    for bi, t in cb.calls():
+        cn = t.get("cn") or ""
+        if not t["args"] or not uses_entry(sy.operand(t["args"][0])):
+            continue
+        if cn.endswith("VacantEntry::insert") or cn.endswith("VacantEntry::insert_entry"):
+            vac = (bi, t)
+        elif "Entry" in cn and cn.rsplit("::", 1)[-1] in ("or_insert", "or_insert_with", "or_default", "and_modify", "or_insert_with_key",
+                                                         "get_mut", "into_mut", "insert", "insert_entry", "remove", "remove_entry"):
+            return None
+    if vac is None:
+        return None
+    rets = [b_ for b_, bl in enumerate(cb.blocks) if bl["term"] and bl["term"]["k"] == "return" and not bl["cleanup"]]
+    for sb, bl in enumerate(cb.blocks):
+        t = bl["term"]
+        if not t or t["k"] != "switch" or bl["cleanup"]:
+            continue
+        e0 = S.strip_refs(sy.operand(t["discr"]))
+        if e0[0] == "discr" and S.strip_sites(S.strip_refs(e0[1])) == E:
+            occ = [x for v_, x in t["targets"] if v_ == 0]
+            if occ and not any(cfg.path_exists(occ[0], r) or occ[0] == r for r in rets) and cfg.dominates(sb, vac[0]):
+                return vac
+    return None
+
+
 def pairing(ctx, rule):
     facts = ctx.facts
     model = ctx.model
@@ -37,7 +71,10 @@ def pairing(ctx, rule):
                 korig = None
                 if len(et["args"]) > 1:
                     korig = model.origin(cb, ctx.sym(cb).operand(et["args"][1]))
-                per_root.setdefault(root, {}).setdefault(key, []).append((REG_OPS[m], korig, where(cb, ebi, et), m))
+                m_eff = m
+                if m == "entry" and _entry_is_checked_insert(ctx, cb, ebi, et) is not None:
+                    m_eff = "insert"            # occupied side panics, vacant side inserts: a plain insertion of a new key
+                per_root.setdefault(root, {}).setdefault(key, []).append((REG_OPS[m], korig, where(cb, ebi, et), m_eff))
     n = 0
     for root, d in sorted(per_root.items()):
         ops_by_reg = {k: sorted(set(o for o, _, _, _ in v)) for k, v in d.items()}
@@ -75,8 +112,9 @@ def pairing(ctx, rule):
         csy = ctx.sym(cb)
         root = ctx.cg.root_of[b.id]
         for (ebi, et, rk, m) in U.receiver_events(ctx, cb):
-            if m == "insert" and et.get("cn", "").startswith("std::collections::HashMap::") and len(et["args"]) > 2:
-                v = S.strip_refs(csy.operand(et["args"][2]))
+            vac_ins = m in ("insert", "insert_entry") and "VacantEntry" in et.get("cn", "") and len(et["args"]) > 1
+            if (m == "insert" and et.get("cn", "").startswith("std::collections::HashMap::") and len(et["args"]) > 2) or vac_ins:
+                v = S.strip_refs(csy.operand(et["args"][1 if vac_ins else 2]))
                 vb = cb
                 if v[0] == "call" and v[1].endswith(("FnOnce::call_once", "FnMut::call_mut", "Fn::call")) and v[2] and \
                         U.closure_body(ctx, S.strip_refs(v[2][0])) is not None:
@@ -556,7 +594,9 @@ def registry_panic_polarity(ctx, rule):
         panics = [bi for bi, t in cb.calls() if (t.get("cn") or "").endswith(("begin_panic", "panic_fmt", "panic_display", "panicking::panic"))]
         if not panics:
             continue
-        inserts = any(m == "insert" and (t.get("cn") or "").startswith("std::collections::HashMap::")
+        inserts = any((m == "insert" and (t.get("cn") or "").startswith("std::collections::HashMap::")) or
+                      (m in ("insert", "insert_entry") and "VacantEntry" in (t.get("cn") or "")) or
+                      (m in ("or_insert", "or_insert_with", "or_default") and "Entry" in (t.get("cn") or ""))
                       for (ebi, t, rk, m) in U.receiver_events(ctx, cb))
         root = ctx.cg.root_of.get(b.id, b.id)
         for pb in panics:
@@ -571,9 +611,11 @@ def registry_panic_polarity(ctx, rule):
                 if e0[0] == "discr":
                     # `match map.get(&id) { Some(_) => .., None => .. }`: variant 1 = present
                     inner = S.strip_refs(e0[1])
-                    if inner[0] == "call" and inner[1].endswith(("HashMap::get", "HashMap::get_mut", "HashMap::remove", "HashMap::insert")):
-                        some_t = [x for v_, x in t["targets"] if v_ == 1]
-                        none_t = [x for v_, x in t["targets"] if v_ == 0]
+                    if inner[0] == "call" and inner[1].endswith(("HashMap::get", "HashMap::get_mut", "HashMap::remove", "HashMap::insert",
+                                                                 "HashMap::entry")):
+                        pres = 0 if inner[1].endswith("HashMap::entry") else 1        # Entry::Occupied is variant 0, Option::Some is 1
+                        some_t = [x for v_, x in t["targets"] if v_ == pres]
+                        none_t = [x for v_, x in t["targets"] if v_ == 1 - pres]
                         rest = t.get("otherwise") if isinstance(t.get("otherwise"), int) else None
                         some_t = some_t or ([rest] if rest is not None and none_t else [])
                         none_t = none_t or ([rest] if rest is not None and some_t else [])
